@@ -323,6 +323,7 @@ static Plan gen_C05(uint64_t seed, Rng &r, uint64_t index) {
     }
     int nst = (int)r.range(3, 5);
     int nops = (int)r.range(3, 45);
+    bool platform_faults = r.chance(0.25);
     int active = -1; // generator-side tracking for the domain restriction (commands only from the active mapper or while none is active)
     for (int i = 0; i < nops; i++) {
         int sid = (int)r.below((uint64_t)nst);
@@ -348,6 +349,7 @@ static Plan gen_C05(uint64_t seed, Rng &r, uint64_t index) {
         }
         if (active == -2) active = -1; // unknown who holds the role now: only Discover/Reset frames until the model is certain again (monitor keeps the set)
         if (r.chance(0.05)) { Fault f; f.kind = r.chance(0.5) ? F_DUP : F_DELAY; f.a = r.range(1, 30); o.f.push_back(f); }
+        if (platform_faults && r.chance(0.12)) { Fault f; f.kind = r.chance(0.6) ? F_ALLOCFAIL : F_SENDFAIL; f.a = f.kind == F_ALLOCFAIL ? r.range(1, 3) : r.pickl({1, 2, 0xFFFF}); f.b = r.chance(0.7) ? 1 : 99; o.f.push_back(f); } // a platform fault while a request is handled must not move the role
         p.ops.push_back(o);
     }
     return p;
@@ -443,6 +445,7 @@ static Plan gen_C07(uint64_t seed, Rng &r) {
             left -= chunk;
             if (r.chance(0.3)) p.ops.push_back(mk(OP_FLOOD, 1, {r.range(1, 5), base - 1, 0, (base - 1) & 1 ? wire::W_PROBE : wire::W_TRAIN, 1})); // byte-identical duplicates
             if (r.chance(0.3)) p.ops.push_back(mk(OP_PROBE, 1, {r.range(1500, 1600), r.range(1500, 1600), wire::W_PROBE, r.range(2000, 2010), r.range(2000, 2010), 0, 0, 0})); // for another station
+            if (r.chance(0.1)) p.ops.push_back(mk(OP_PROBE, 1, {r.chance(0.5) ? 100 : r.range(1660, 1690), r.chance(0.7) ? 100 : 300 + r.range(0, 5), r.chance(0.5) ? wire::W_PROBE : wire::W_TRAIN, 100, 100, 0, 0, 0})); // addressed to us, real (or Ethernet) source our own address or a neighbour of it: an observation like any other
             if (r.chance(0.2)) { int64_t tw = 300 + r.range(0, 5); p.ops.push_back(mk(OP_PROBE, 1, {r.range(1610, 1650), r.range(1610, 1650), wire::W_TRAIN, tw, tw, 0, 0, 0})); } // for a station whose address differs from ours in one byte
             if (r.chance(0.04)) p.ops.push_back(mk(OP_ATTR, 2, {0, (int64_t)(r.next() >> 1), 0x20000})); // the interface's hardware address changes mid-session
             if (r.chance(0.3) && k + 4 <= 300) { // distinct observations that share the Ethernet source (or the real source) with an earlier one
@@ -655,7 +658,7 @@ static Plan gen_C11(uint64_t seed, Rng &r) {
     uint16_t gen = rnd_gen(r);
     int64_t xid = rnd_seq(r);
     int nops = (int)r.range(2, 25);
-    int maxst = (int)std::min((int64_t)240, (int64_t)(n.mtu - 36) / 6 - 1); // fillers + the own address fill the frame exactly at the upper end
+    int maxst = (int)std::min((int64_t)(r.chance(0.15) ? 1500 : 240), (int64_t)(n.mtu - 36) / 6 - 1); // fillers + the own address fill the frame exactly at the upper end
     for (int i = 0; i < nops; i++) {
         int x = (int)r.below(12);
         if (x < 7) {
@@ -664,6 +667,7 @@ static Plan gen_C11(uint64_t seed, Rng &r) {
             if (r.chance(0.1)) mapper = (int)r.below(3);
             Op o = mk(OP_DISCOVER, rnd_dt(r), {mapper, r.chance(0.1) ? (r.chance(0.5) ? 100 + (int64_t)r.below(p.nodes.size()) : 300 + r.range(0, 5)) : rnd_bridge(r, mapper), r.chance(0.8) ? 0 : 1, gen, xid, 1, 0, 0}); // Ethernet source: the mapper, a bridge, our own address (a reflecting switch), or a one-byte neighbour of it
             int fill = r.chance(0.3) ? (int)r.pickl({0, 1, 2, maxst, maxst - 1}) : (int)r.range(0, maxst);
+            if (maxst > 300 && r.chance(0.5)) fill = std::min(maxst, (int)r.pickl({254, 255, 256, 257, 510, 511, 512, 513, 767, 768, 1023, 1024, 1279, 1280})); // with our address inserted: counts around multiples of 256
             int pos;
             switch (r.below(5)) { case 0: pos = -1; break; case 1: pos = 0; break; case 2: pos = fill; break; case 3: pos = fill / 2; break; default: pos = (int)r.range(0, fill); break; }
             if (r.chance(0.08)) { o.a[5] = 2; }
@@ -696,6 +700,19 @@ static Plan gen_C12(uint64_t seed, Rng &r) {
         for (int i = 0; i < nn; i++) p.nodes.push_back(rnd_node(r, {GLUE_DARWIN}));
         int mapper = 0;
         int nops = (int)r.range(3, 30);
+        if (r.chance(0.05)) { // the acknowledging Discover carries a long station list (jumbo link): our address somewhere among 254..1024 entries
+            p.family = 4;
+            p.nodes.resize(1);
+            p.nodes[0].mtu = (uint32_t)r.pickl({9000, 9216, 4096, 9216});
+            int lim = (int)(p.nodes[0].mtu - 36) / 6 - 1;
+            uint16_t g = rnd_gen(r);
+            { Op o = mk(OP_DISCOVER, 5, {0, -1, 0, g, rnd_seq(r), 1, 2, -1}); o.blob = {0}; p.ops.push_back(o); }
+            p.ops.push_back(mk(OP_TICK, (uint32_t)r.range(300, 1500), {0}));
+            int fill = std::min(lim, (int)r.pickl({254, 255, 256, 257, 511, 512, 513, 1023, 1024}));
+            { Op o = mk(OP_DISCOVER, (uint32_t)r.range(10, 400), {0, -1, 0, g, rnd_seq(r), 1, fill, r.chance(0.3) ? 0 : r.range(1, fill)}); o.blob = {0}; p.ops.push_back(o); }
+            p.tail_ms = (uint32_t)r.range(3000, 8000);
+            return p;
+        }
         if (r.chance(0.3)) { keepalive_ops(r, p, nn); nops = (int)r.range(0, 6); }
         else if (r.chance(0.06)) { // as many mappers as the session table holds (or one more / one less), then each of them acknowledges us
             p.family = 3;
@@ -789,8 +806,8 @@ static Plan gen_C13(uint64_t seed, Rng &r) {
                 int tk = (int)r.range(1, 4);
                 for (int q = 0; q < tk; q++) { p.ops.push_back(mk(OP_A_ADV, 0, {r.range(200, 1500)})); p.ops.push_back(mk(OP_A_TICK, 0, {})); }
                 p.ops.push_back(mk(OP_A_TCOMPL, 0, {0, 1}));
-                p.ops.push_back(mk(OP_A_TICK, 0, {})); p.ops.push_back(mk(OP_A_ADV, 0, {r.range(0, 200)})); p.ops.push_back(mk(OP_A_TICK, 0, {}));
-                if (r.chance(0.5)) p.ops.push_back(mk(OP_A_TICK, 0, {}));
+                p.ops.push_back(mk(OP_A_TICK, 0, {}));
+                if (r.chance(0.6)) { p.ops.push_back(mk(OP_A_ADV, 0, {r.range(0, 200)})); p.ops.push_back(mk(OP_A_TICK, 0, {})); if (r.chance(0.5)) p.ops.push_back(mk(OP_A_TICK, 0, {})); } // else one tick only: Wait, not yet Quiescent
                 p.ops.push_back(mk(OP_A_ADV, 0, {r.range(0, 600)}));
                 p.ops.push_back(mk(OP_A_TADD, 0, {1, 6}));
                 p.ops.push_back(mk(OP_A_DISCBOOK, 0, {}));
@@ -825,7 +842,7 @@ static Plan gen_C13(uint64_t seed, Rng &r) {
             if (r.chance(0.3)) { Op d2 = mk(OP_DISCOVER, (uint32_t)r.range(100, 900), {0, -1, 0, 0x0909, rnd_seq(r), 1, 2, -1}); d2.blob = {0}; p.ops.push_back(d2); }
             if (r.chance(0.3)) { // the mapper acknowledges us: the enumeration ends by completion; another mapper opens a new one while our last Hello is less than a second old
                 Op ack = mk(OP_DISCOVER, (uint32_t)r.range(900, 2600), {0, -1, 0, 0x0909, rnd_seq(r), 1, 2, 0}); ack.blob = {0}; p.ops.push_back(ack);
-                p.ops.push_back(mk(OP_TICK, (uint32_t)r.range(1, 60), {0})); p.ops.push_back(mk(OP_TICK, (uint32_t)r.range(1, 60), {0}));
+                if (r.chance(0.5)) { p.ops.push_back(mk(OP_TICK, (uint32_t)r.range(1, 60), {0})); p.ops.push_back(mk(OP_TICK, (uint32_t)r.range(1, 60), {0})); } // else: the next Discover arrives before any further tick (the enumeration is in Wait, not yet Quiescent)
                 Op d3 = mk(OP_DISCOVER, (uint32_t)r.range(1, 500), {1, -1, 0, rnd_gen(r), rnd_seq(r), 1, 2, -1}); d3.blob = {0}; p.ops.push_back(d3);
                 p.ops.push_back(mk(OP_HELLO, (uint32_t)r.range(1, 100), {(int64_t)r.range(4, 7), rnd_gen(r), 0, r.range(1, 9), r.range(1, 20), 0}));
             }
@@ -856,7 +873,10 @@ static Plan gen_C14(uint64_t seed, Rng &r, uint64_t index) {
         if (x < 9) p.ops.push_back(mk(OP_A_MAP, 0, {r.chance(0.8) ? r.pickl({0, 1, 2, 3, 4, 5, 6, 7, 8, 9, 10, 11, 12, -1, -2, -3, 127, 128, 255}) : r.range(-128, 255)}));
         else if (x < 14) p.ops.push_back(mk(OP_A_ADV, 0, {1000 * (r.chance(0.7) ? r.pickl({0, 1, 4, 5, 6, 29, 30, 31, 50, 300}) : r.range(0, 70))}));
         else if (x < 16) p.ops.push_back(mk(OP_A_TICK, 0, {}));
-        else if (x < 17) p.ops.push_back(r.chance(0.85) ? mk(OP_A_INACT, 0, {}) : mk(OP_A_REINIT, 0, {}));
+        else if (x < 17) {
+            if (r.chance(0.85)) p.ops.push_back(mk(OP_A_INACT, 0, {}));
+            else { Op o = mk(OP_A_REINIT, 0, {}); if (r.chance(0.4)) { Fault f; f.kind = F_ALLOCFAIL; f.a = r.range(1, 8); f.b = 1; o.f.push_back(f); } p.ops.push_back(o); } // the new instance may come up with a constructor that found no memory (the daemon does not check)
+        }
         else if (x < 18) p.ops.push_back(mk(OP_A_TADD, 0, {(int64_t)r.below(4), rnd_seq(r)}));
         else if (x < 19) p.ops.push_back(r.chance(0.8) ? mk(OP_A_CHARGE, 0, {}) : mk(OP_A_SETMAP, 0, {(int64_t)r.below(3), r.chance(0.5) ? r.pickl({0, 4, 5, 6, 29, 30, 31}) : big_jump(r)}));
         else p.ops.push_back(mk(OP_A_ADV, 0, {r.chance(0.8) ? r.range(0, 2500) : 1000 * big_jump(r)}));
@@ -879,6 +899,12 @@ static Plan gen_C15(uint64_t seed, Rng &r, uint64_t index) {
     int nops = (int)r.range(5, 100);
     for (int i = 0; i < nops; i++) {
         int x = (int)r.below(10);
+        if (r.chance(0.02)) { // a burst: the same event 30..34 / 126..130 / 254..258 times within one clock second, then a different one
+            int64_t ev = (int64_t)r.below(8), n = r.pickl({30, 31, 32, 33, 34, 63, 64, 65, 126, 127, 128, 129, 254, 255, 256, 257});
+            for (int64_t k = 0; k < n; k++) p.ops.push_back(mk(OP_A_SESS, 0, {ev}));
+            p.ops.push_back(mk(OP_A_SESS, 0, {(int64_t)r.below(8)}));
+            continue;
+        }
         if (x < 6) p.ops.push_back(mk(OP_A_SESS, 0, {(int64_t)r.below(8)}));
         else if (x < 7 && r.chance(0.3)) p.ops.push_back(mk(OP_A_REINIT, 0, {})); // a second, third, ... automaton created later in the life of the process
         else if (x < 9) p.ops.push_back(mk(OP_A_ADV, 0, {r.chance(0.9) ? 1000 * r.pickl({0, 0, 1, 1, 2, 3, 10}) : 1000 * big_jump(r)}));
@@ -949,6 +975,7 @@ static Plan gen_C17(uint64_t seed, Rng &r) {
         p.tail_ms = 100;
         return p;
     }
+    if (r.chance(0.06)) p.nodes[r.below(p.nodes.size())].null_ctx = true; // one interface is served under a NULL context pointer
     Mix m;
     m.raw = 1; m.stray = 2; m.stall = 0; m.flood = 2; m.fetch = 2;
     int nops = (int)r.range(2, 50);
